@@ -86,8 +86,15 @@ inductive Ev where
 
 def rmax (a b : Rat) : Rat := if a < b then b else a
 
-/-- sanity bound on a single rounding error in the LP's / trader's favour: a millionth of the smallest coin unit -/
-def errTol : Rat := 1 / 1000000
+/-- analytic bound on a single rounding error in the LP's / trader's favour.  The base-amount formula is evaluated as
+    `diff.Mul(liq).Quo(√p_b).Quo(√p_a)`, three half-even roundings of at most u/2 = 5·10^-19 each, the first two divided by
+    the following divisors: |error| ≤ u/2 · (1/(√p_a·√p_b) + 1/√p_a + 1); the quote-amount formula loses at most u/2.
+    `m` is the smallest sqrt price involved.  (Next-price computations round in the pool's favour and add nothing.) -/
+def errTol (m : Rat) : Rat := if m ≤ 0 then 0 else (1 / PRECQ) * (1 / (m * m) + 1 / m + 1)
+
+/-- smallest positive sqrt price among the grid points in use and the given prices -/
+def minPrice (sp : Int → Rat) (ts : List Int) (ps : List Rat) : Rat :=
+  ((ts.map sp) ++ ps).foldl (fun m x => if 0 < x ∧ (m ≤ 0 ∨ x < m) then x else m) 0
 
 /-- the abstract operation for an event, with the smallest rounding error `e` that makes its amount guards true -/
 def evToOp (s : St) : Ev → Op
@@ -157,8 +164,8 @@ def swapEvs (down : Bool) (cur : Int) : List CL.SwapEv → List Ev
   | .cross up t :: rest => .cross (!up) t :: swapEvs down (if down then t - 1 else t) rest
   | _ :: rest => swapEvs down cur rest
 
-/-- lock-step verdict for one pool: returns (ok, largest rounding error, sum of the rounding errors) -/
-def lockstepC (before after : CL.St) (pool : Nat) (evs : List Ev) : Bool × Rat × Rat :=
+/-- lock-step verdict for one pool: returns (ok, largest rounding error within its analytic bound, sum of the errors) -/
+def lockstepC (before after : CL.St) (pool : Nat) (evs : List Ev) : Bool × Bool × Rat :=
   match absC before pool 0, absC after pool 0 with
   | some a, some b =>
     let ts := ticksOfPool before pool ++ ticksOfPool after pool
@@ -168,9 +175,11 @@ def lockstepC (before after : CL.St) (pool : Nat) (evs : List Ev) : Bool × Rat 
       let rb := b.base - a'.base
       let rq := b.quote - a'.quote
       let a'' := step a' (.keep rb rq)
-      (decide (0 ≤ rb) && decide (0 ≤ rq) && decide (rb < 1) && decide (rq < 1) && obsEqC ts a'' b, m, a'.slack)
-    | none => (false, 0, 0)
-  | none, none => (true, 0, 0)
-  | _, _ => (evs.isEmpty, 0, 0)
+      let mp := minPrice a.sp ts [a.P, b.P]
+      (decide (0 ≤ rb) && decide (0 ≤ rq) && decide (rb < 1) && decide (rq < 1) && obsEqC ts a'' b,
+       decide (m ≤ errTol mp), a'.slack)
+    | none => (false, true, 0)
+  | none, none => (true, true, 0)
+  | _, _ => (evs.isEmpty, true, 0)
 
 end Sunrise.CLCustody
